@@ -84,6 +84,8 @@ def run_history(cfg, hist):
     def on_enter(cid, idx, environ):
         if "k=wgate" in environ.get("QUERY_STRING", ""):
             return  # this kind blocks in mid-response instead (on_mid)
+        if "k=exit0" in environ.get("QUERY_STRING", ""):
+            return  # fails at once
         ev = gates.setdefault((cid, idx), w.Event())
         ev.wait()
 
@@ -115,9 +117,9 @@ def run_history(cfg, hist):
                 c = world.connect(listener=li, sndbuf=512)
                 state.append({"client": c, "reading": True, "sent": 0, "partial": False, "busy": False, "t_connect": now,
                               "reqs": []})
-            elif ev in ("S", "L", "P", "M"):
+            elif ev in ("S", "L", "P", "M", "B"):
                 free = [st for st in state if not st["busy"] and not st["partial"] and not st["client"].conn.server_closed
-                        and st["client"].conn.accepted and not st.get("closed")]
+                        and st["client"].conn.accepted and not st.get("closed") and not st.get("closing")]
                 if not free:
                     continue
                 st = free[0] if ev != "P" else free[-1]
@@ -128,7 +130,15 @@ def run_history(cfg, hist):
                     # the application writes 1500 bytes, then blocks (until F), then writes the rest
                     req = {"n": 3000, "k": "wgate", "w": 1500}
                 head, body = SC.request_bytes(cid, idx, req)
-                if ev == "P":
+                if ev == "B":
+                    # the application of this request raises SystemExit before any output: answered with an
+                    # error (or not at all), the connection is given up by the server -- not left as it is
+                    req = {"n": 40, "k": "exit0"}
+                    head, body = SC.request_bytes(cid, idx, req)
+                    st["client"].send(head + body)
+                    st["sent"] += 1
+                    st["closing"] = True
+                elif ev == "P":
                     st["client"].send(head[: len(head) // 2])
                     st["partial"] = True
                     st["t_partial"] = now
@@ -139,7 +149,7 @@ def run_history(cfg, hist):
                     st["reqs"].append({"idx": idx, "t_sent": now, "large": ev in ("L", "M")})
             elif ev == "X":
                 free = [st for st in state if not st["busy"] and not st["partial"] and not st["client"].conn.server_closed
-                        and st["client"].conn.accepted and not st.get("closed")]
+                        and st["client"].conn.accepted and not st.get("closed") and not st.get("closing")]
                 if free:
                     free[0]["client"].close()
                     free[0]["closed"] = True
@@ -279,7 +289,7 @@ def judge(cfg, hist, obs, acc):
         # a server-initiated close of a connection that was active less than channel_timeout ago
         if t_close is not None and not c.client_closed and not c.client_rst:
             before = [t for t, k in tl if k in ("accept", "recv", "send", "exit") and t <= t_close]
-            if before and t_close - max(before) < cfg["channel_timeout"] - 0.01:
+            if before and t_close - max(before) < cfg["channel_timeout"] - 0.01 and not st.get("closing"):
                 out.append(("reaped-too-early", f"conn {c.cid} closed by the server at t={t_close:.1f}, only {t_close - max(before):.1f}s after its last activity (channel_timeout {cfg['channel_timeout']})"))
         # (3) idle connections are reaped
         acts = [t for t, k in tl if k in ("accept", "recv", "send", "exit")]
@@ -369,10 +379,12 @@ def install_timeline():
 
     def service(self):
         conn = getattr(self.socket, "conn", None)
-        r = orig_service(self)
-        if conn is not None:
-            stamp(conn, "exit")
-        return r
+        try:
+            return orig_service(self)
+        finally:
+            # the worker leaves the request, whichever way
+            if conn is not None:
+                stamp(conn, "exit")
 
     ch.HTTPChannel.received = received
     ch.HTTPChannel.service = service
@@ -433,6 +445,14 @@ DIRECTED = [
     ({"connection_limit": 24, "channel_timeout": 10, "cleanup_interval": 4, "listeners": 2, "threads": 1}, "C" * 23 + "aXaaa"),
     # partial request then silence
     ({"connection_limit": 8, "channel_timeout": 3, "cleanup_interval": 4, "listeners": 1, "threads": 2}, "CPA"),
+    # a steady stream of new connections (one per second, cleanup_interval 4): the old idle ones are still reaped on time
+    ({"connection_limit": 24, "channel_timeout": 3, "cleanup_interval": 4, "listeners": 1, "threads": 1}, "C" + "Ca" * 14),
+    ({"connection_limit": 24, "channel_timeout": 3, "cleanup_interval": 4, "listeners": 2, "threads": 1}, "CC" + "Ca" * 14),
+    ({"connection_limit": 12, "channel_timeout": 3, "cleanup_interval": 4, "listeners": 1, "threads": 1}, "C" + "CaXa" * 6),
+    # an application that raises SystemExit: the connection is given up, its slot is free again
+    ({"connection_limit": 4, "channel_timeout": 3, "cleanup_interval": 1, "listeners": 1, "threads": 1}, "CBaAa"),
+    ({"connection_limit": 4, "channel_timeout": 3, "cleanup_interval": 1, "listeners": 1, "threads": 2}, "CCCBaCCaAa"),
+    ({"connection_limit": 5, "channel_timeout": 10, "cleanup_interval": 4, "listeners": 2, "threads": 1}, "CSBaFBaAa"),
 ]
 
 
@@ -457,7 +477,7 @@ def run_shard(spec):
         rng = random.Random(spec["seed"])
         for _ in range(spec["n"]):
             n = rng.randint(5, 14)
-            hist = ["C"] + [rng.choice(ALPHABET + ["C", "S", "a"]) for _ in range(n - 1)]
+            hist = ["C"] + [rng.choice(ALPHABET + ["C", "S", "a", "B"]) for _ in range(n - 1)]
             cfg = rng.choice(cfgs)
             obs, vs = run_one(acc, cfg, hist)
             if len(acc.samples) < 1:
